@@ -434,6 +434,31 @@ theorem mutexTrace_sound {t : List Event} (h : mutexTrace t = true) :
     rw [holdsBy_heldOf] at this
     exact this
 
+/-- the monitor is not stricter than the protocol: the history of EVERY reachable state of the protocol
+    machine (any number of processes, any interleaving, any fault) is accepted, and what the monitor
+    believes to be held is exactly the lock cells of the state.  So the predicate the real traces are
+    judged by is the one the model's runs satisfy. -/
+theorem reachable_traces_accepted {limit : Nat} {jobs : Nat → Job} {fs0 : FS} {s : State}
+    (hr : Reachable limit jobs fs0 s) :
+    mutexTrace s.hist.reverse = true ∧
+    ∀ p path, holdsBy (heldOf [] s.hist.reverse) p path = true ↔ s.owner path = some p :=
+  traceInv_reachable hr
+
+/-- `runActs` (what the driver replays real traces with) only produces reachable states -/
+theorem runActs_reachable {limit : Nat} {jobs : Nat → Job} {fs0 : FS} {s s' : State}
+    (hr : Reachable limit jobs fs0 s) (acts : List (Nat × Act))
+    (h : runActs limit jobs s acts = some s') : Reachable limit jobs fs0 s' := by
+  induction acts generalizing s with
+  | nil => simp [runActs] at h; subst h; exact hr
+  | cons pa rest ih =>
+    obtain ⟨p, a⟩ := pa
+    simp only [runActs] at h
+    cases hs : stepAct limit jobs s p a with
+    | none => rw [hs] at h; cases h
+    | some s1 =>
+      rw [hs] at h
+      exact ih (Reachable.step p a hr hs) h
+
 /-! ## Non-vacuity and the witnesses of the false full statements -/
 
 section examples
@@ -491,6 +516,13 @@ example : (match runActs 9 jobs2 (State.init fsLink)
                   [(0, .start), (1, .start), (0, .tryLock), (0, .step), (0, .crash), (1, .tryLock), (1, .step),
                    (1, .unlock)] with
            | some s => s.pc 0 == .dead && s.pc 1 == .done && s.owner "/p/img" == none && s.fs "/p/img" == .absent
+           | none => false) = true := by decide
+/-- the history of that run, as the monitor sees it -/
+example : (match runActs 9 jobs2 (State.init fsLink)
+                  [(0, .start), (1, .start), (0, .tryLock), (0, .step), (0, .crash), (1, .tryLock), (1, .step),
+                   (1, .unlock)] with
+           | some s => s.hist.reverse == [.acq 0 "/p/img", .fsop 0 "/p/img", .crash 0, .acq 1 "/p/img",
+                                          .fsop 1 "/p/img", .rel 1 "/p/img"] && mutexTrace s.hist.reverse
            | none => false) = true := by decide
 /-- the monitor accepts a hand-over after a death and rejects an overlap and an unlocked access -/
 example : mutexTrace [.acq 1 "P", .fsop 1 "P", .crash 1, .acq 2 "P", .fsop 2 "P", .rel 2 "P", .timeout 3] = true := by
